@@ -63,13 +63,13 @@ package fans
 //@   requires hwWF(fan)
 //@   ensures err == nil ==> result == fileInt[hwPwmPath(fan)] && fan.Pwm == result
 //@   ensures err != nil ==> result == 0 && fan.Pwm == old(fan.Pwm)
-//@   modifies fan.Pwm
+//@   modifies fan.Pwm, lastReadFailed
 
 //@ func (*HwMonFan).GetRpm
 //@   returns (result, err)
 //@   requires hwWF(fan)
 //@   ensures err != nil ==> result == 0
-//@   modifies fan.Rpm
+//@   modifies fan.Rpm, lastReadFailed
 
 //@ func (*HwMonFan).SetPwm
 //@   requires hwWF(fan)
@@ -83,11 +83,11 @@ package fans
 //@ func (*HwMonFan).GetPwmEnabled
 //@   requires hwWF(fan)
 //@   ensures result1 == nil ==> result0 == fileInt[hwEnablePath(fan)]
-//@   modifies nothing
+//@   modifies lastReadFailed
 
 //@ func (*HwMonFan).Supports
 //@   requires hwWF(fan)
-//@   modifies nothing
+//@   modifies lastReadFailed
 
 // ======================================= FileFan ====================================================
 
@@ -116,11 +116,11 @@ package fans
 //@ func (*FileFan).GetPwm
 //@   requires fileWF(fan)
 //@   ensures err != nil ==> fan.Pwm == old(fan.Pwm)
-//@   modifies fan.Pwm
+//@   modifies fan.Pwm, lastReadFailed
 //@ func (*FileFan).GetRpm
 //@   requires fileWF(fan)
 //@   ensures err != nil ==> result == 0
-//@   modifies fan.Rpm
+//@   modifies fan.Rpm, lastReadFailed
 //@ func (*FileFan).SetPwm
 //@   requires fileWF(fan)
 //@   ghostdo pwmWrites[fan] := pwmWrites[fan] + 1
@@ -130,7 +130,7 @@ package fans
 //@ func (*FileFan).Supports
 //@   requires fileWF(fan)
 //@   ensures feature == FeatureControlMode ==> !result
-//@   modifies nothing
+//@   modifies lastReadFailed
 
 // ======================================= CmdFan =====================================================
 
@@ -199,7 +199,7 @@ package fans
 //@   ghostdo lastMode[fan] := value
 //@   ensures modeWrites == old(modeWrites)[fan := old(modeWrites)[fan] + 1] && lastMode == old(lastMode)[fan := value]
 //@   ensures forall p string :: p != hwEnablePath(fan) ==> fileInt[p] == old(fileInt)[p]
-//@   modifies modeWrites, lastMode, fileInt
+//@   modifies modeWrites, lastMode, fileInt, lastReadFailed
 //@ func (*FileFan).SetPwmEnabled
 //@   ensures err == nil
 //@   modifies nothing
